@@ -12,7 +12,7 @@ Definition toy : oracle :=
      o_re := fun p v => String.eqb p v;
      o_b64std := fun s => Some s;
      o_jhdr := fun s => Some s;
-     o_jclaims := fun _ => Some (None, None, None);
+     o_jclaims := fun _ => Some (JAbsent, JAbsent, JAbsent);
      o_b64canon := fun s => Some (strip_both (fun a => Ascii.eqb a "="%char) s);
      o_jmac := fun _ k m => hex_of_string (k ++ "|" ++ m);
      o_ptime := fun s => Some (0%Z, s, stake 8 s);
